@@ -38,9 +38,23 @@ def _impl_int(case, gbasis, T):
 
 
 def _tol(model, case, res, level, *args):
+    """1e-9 x the natural magnitude of the slice: the largest element of the slice, or - when the slice is small or
+    vanishes by parity while the recursion's intermediate terms do not (a single diffuse shell, odd orders about its own
+    centre: exact value 0, terms ~ (1/2a)^(n/2) ~ 1e7) - the largest element of the moment whose orders are rounded up
+    to even numbers, which never vanishes by symmetry on the diagonal (Cauchy-Schwarz scale of the operator)."""
     arr = np.array(res, dtype=object)
     nd = arr.shape[-1]
     scale = [max(1.0, max(abs(float(x)) for x in arr[..., d].flat)) for d in range(nd)]
+    even = [[int(o) + int(o) % 2 for o in tr] for tr in case["orders"]]
+    if even != [list(map(int, tr)) for tr in case["orders"]]:
+        c2 = dict(case, orders=even)
+        if level == "block":
+            ev = model.call(KERNEL["block_cmd"](c2, *args))
+        else:
+            ev = model.call(KERNEL["int_cmd"](c2, *args))
+        earr = np.array(ev, dtype=object)
+        for d in range(nd):
+            scale[d] = max(scale[d], max(abs(float(x)) for x in earr[..., d].flat))
     return None, (lambda idx: 1e-9 * scale[idx[-1]])
 
 
